@@ -100,8 +100,8 @@ theorem setPhaseFinalizer_ghost (mem : OPhase) (present : Bool) {w w' : World} (
   · obtain ⟨w1, w1', r, e1, e2, h1⟩ := (lockedPhaseWrite_ghost mem (fun cur => { cur with finCached := present }) h).elim
     simp only [e1, e2]
     cases r with
-    | ok stored => exact ⟨⟨h1.store, h1.writes, h1.env, h1.events, h1.phases, by simp only [h1.phaseEvents], h1.remoteRefs, h1.applied⟩, rfl⟩
-    | error e => exact ⟨⟨h1.store, h1.writes, h1.env, h1.events, h1.phases, by simp only [h1.phaseEvents], h1.remoteRefs, h1.applied⟩, rfl⟩
+    | ok stored => exact ⟨⟨h1.store, h1.writes, h1.env, h1.events, h1.phases, by simp only [h1.phaseEvents], h1.remoteRefs, h1.applied, h1.watched⟩, rfl⟩
+    | error e => exact ⟨⟨h1.store, h1.writes, h1.env, h1.events, h1.phases, by simp only [h1.phaseEvents], h1.remoteRefs, h1.applied, h1.watched⟩, rfl⟩
 
 theorem updatePhaseStatus_ghost (mem : OPhase) {w w' : World} (h : GhostEq w w') :
     RelW (updatePhaseStatus w mem) (updatePhaseStatus w' mem) := by
@@ -110,8 +110,8 @@ theorem updatePhaseStatus_ghost (mem : OPhase) {w w' : World} (h : GhostEq w w')
     (lockedPhaseWrite_ghost mem (fun cur => { cur with conds := mem.conds, controllerOf := mem.controllerOf }) h).elim
   simp only [e1, e2]
   cases r with
-  | ok stored => exact ⟨⟨h1.store, h1.writes, h1.env, h1.events, h1.phases, by simp only [h1.phaseEvents], h1.remoteRefs, h1.applied⟩, rfl⟩
-  | error e => exact ⟨⟨h1.store, h1.writes, h1.env, h1.events, h1.phases, by simp only [h1.phaseEvents], h1.remoteRefs, h1.applied⟩, rfl⟩
+  | ok stored => exact ⟨⟨h1.store, h1.writes, h1.env, h1.events, h1.phases, by simp only [h1.phaseEvents], h1.remoteRefs, h1.applied, h1.watched⟩, rfl⟩
+  | error e => exact ⟨⟨h1.store, h1.writes, h1.env, h1.events, h1.phases, by simp only [h1.phaseEvents], h1.remoteRefs, h1.applied, h1.watched⟩, rfl⟩
 
 theorem afterPhaseStatus_ghost {x y : World × Except ApiErr OPhase} (h : RelW x y) (res : Res) :
     RelW (afterPhaseStatus x res) (afterPhaseStatus y res) := by
